@@ -6,6 +6,7 @@
 #include <cstdio>
 #include <cstdlib>
 #include <cstring>
+#include <unistd.h>
 #include <functional>
 #include <string>
 #include <unordered_set>
@@ -43,11 +44,18 @@ public:
   std::function<std::string()> final_observation;
   std::function<void(const std::string& kind, const std::string& what, const Execution&)> on_violation;
   std::function<void(int kind)> on_choice_point;
-  std::function<void(void*)> on_thread_create;   // called before every decision (binding dumps)
+  std::function<void(void*)> on_thread_create;
+  // optional replacement of run(): must fill `cur` (e.g. by running the execution in a forked child)
+  std::function<void(const std::vector<int>&, const std::vector<std::pair<int, int> >&)> custom_run;   // called before every decision (binding dumps)
   int preempt_bound = 0, spurious_budget = 0;
   long nproc = 1, max_steps = 20000;
   unsigned long long max_schedules = 0;   // 0 = unlimited
   bool record_events = false;
+  // deviation mode: EVERY non-default choice costs one unit (also switches at blocking points and
+  // waiter choices); preempt_bound is then the deviation bound.  Used where free exploration of all
+  // non-preemptive switches is intractable (many threads / nested queues).
+  bool deviation_mode = false;
+  bool prune = true;      // state-key pruning (sound only if shared_hash covers all shared state the threads read)
   Stats stats;
 
   // current execution (also used by the fatal handler)
@@ -125,7 +133,8 @@ public:
   void explore(const std::vector<int>& pfx, const std::vector<std::pair<int, int> >& shape)
   {
     if (max_schedules && stats.schedules >= max_schedules) { stats.capped = true; return; }
-    run(pfx, shape);
+    if (custom_run) { custom_run(pfx, shape); stats.schedules++; stats.choice_points += cur.points.size(); }
+    else run(pfx, shape);
     Execution x = cur;   // copy: recursion overwrites cur
     if (final_observation) stats.finals.insert(final_observation());
     if (check) {
@@ -134,9 +143,11 @@ public:
     }
     for (size_t i = pfx.size(); i < x.points.size(); ++i) {
       const Point& p = x.points[i];
-      if (!stats.states.insert(p.key).second) { stats.pruned++; continue; }   // same state, same remaining budget: subtree already explored
+      if (prune && !stats.states.insert(p.key).second) { stats.pruned++; continue; }   // same state, same remaining budget: subtree already explored
+      int dev_before = 0;
+      if (deviation_mode) for (size_t k = 0; k < i; ++k) if (x.points[k].chosen != 0) ++dev_before;
       for (int alt = 1; alt < p.n; ++alt) {
-	int cost = p.preempt_before + ((p.kind == VS_THREAD && p.running_enabled) ? 1 : 0);
+	int cost = deviation_mode ? dev_before + 1 : p.preempt_before + ((p.kind == VS_THREAD && p.running_enabled) ? 1 : 0);
 	if (cost > preempt_bound) continue;
 	std::vector<int> np; std::vector<std::pair<int, int> > ns;
 	for (size_t k = 0; k < i; ++k) { np.push_back(x.points[k].chosen); ns.push_back(std::make_pair(x.points[k].kind, x.points[k].n)); }
